@@ -228,6 +228,10 @@ def make_run(W, shape, known_active=None):
         for ci, (nargs, kwnames, poskw, raising, must_accept) in enumerate(calls):
             args = [W.K[q]() for q in range(nargs)]
             kwargs = {nm: W.K[0]() for nm in kwnames}
+            for qi, nm in enumerate(kwnames):
+                # a keyword every method declares as object: pass the values a dispatcher could mistake for "not given"
+                if all(t == n for md in methods for nm2, t, _ in md.get("kw", []) if nm2 == nm):
+                    kwargs[nm] = (None, 0, False, "", (), ...)[(ci + qi) % 6]
             for q, nm in enumerate(poskw):
                 kwargs[nm] = W.K[nargs + q]()
             RAISE[0] = bool(raising)
